@@ -217,6 +217,18 @@ func checkCase(t ev.T, test string, c Case) {
 
 	life, endLife := context.WithCancel(context.Background())
 	defer endLife()
+	var maxGap atomic.Int64 // stall monitor: largest scheduling gap seen by a 2 ms ticker of this process
+	go func() {
+		last := time.Now()
+		for life.Err() == nil {
+			time.Sleep(2 * time.Millisecond)
+			now := time.Now()
+			if g := int64(now.Sub(last)); g > maxGap.Load() {
+				maxGap.Store(g)
+			}
+			last = now
+		}
+	}()
 	holder := filesystem.NewGenericRemoteLockFile(hFS.(*filesystem.VFS), "L", dir, false)
 	var herr error
 	switch c.Acquire {
@@ -337,7 +349,11 @@ func checkCase(t ev.T, test string, c Case) {
 			continue // consequence of somebody else's removal
 		}
 		if v.probe.start.IsZero() {
-			inconclusive = true
+			if strings.HasPrefix(v.what, "removed the lock directory") {
+				findings = append(findings, finding{fmt.Sprintf("%s: %s without having probed the lock for staleness at all", v.by, v.what)})
+			} else {
+				inconclusive = true
+			}
 			continue
 		}
 		// newest sign of life completed before the probe was even issued
@@ -354,6 +370,21 @@ func checkCase(t ev.T, test string, c Case) {
 			ev.Class("stale-verdict-observer-held-up-between-probe-and-evaluation(not judged)")
 			inconclusive = true
 		}
+	}
+	// "while the holder is alive ... the heartbeat is refreshed every period": judged when nothing holds the process up
+	if !dead && c.Load == 0 && c.SlowWriteMs == 0 && time.Duration(maxGap.Load()) < 15*time.Millisecond && len(findings) == 0 {
+		w.mu.Lock()
+		for i := 1; i < len(w.beats); i++ {
+			if r := releasing.Load(); r != 0 && w.beats[i].start.After(time.Unix(0, r)) {
+				break
+			}
+			if g := w.beats[i].start.Sub(w.beats[i-1].start); g > period+30*time.Millisecond {
+				findings = append(findings, finding{fmt.Sprintf("the heart-beat of the live holder is not refreshed every period: %v between two consecutive heart-beats (period %v), with no load and no scheduling gap above %v", g.Round(time.Millisecond), period, time.Duration(maxGap.Load()).Round(time.Millisecond))})
+				inconclusive = false
+				break
+			}
+		}
+		w.mu.Unlock()
 	}
 	if inconclusive {
 		ev.Inconclusive("heart-beat or observer held up for more than a period (machine load)")
